@@ -35,7 +35,7 @@ rundemo() {
     [ -f "$f" ] || continue
     pkg=$(grep -m1 -E "^package " "$f" | awk '{print $2}')
     case "$pkg" in
-      parser) dir="compiler/parser"; mod="$wt";;
+      parser|parser_test) dir="compiler/parser"; mod="$wt";;
       compiler|compiler_test) dir="compiler"; mod="$wt";;
       golang) dir="compiler/generator/golang"; mod="$wt";;
       main) dir="."; mod="$wt";;
